@@ -1,7 +1,7 @@
 """registry entry of C19 (Lean files carrying the obligations, correspondence script, labels)"""
 from reg._common import COMMON_ASSUME
 
-ENTRY = {'lean_files': ['Tables/C19.lean', 'Props/C19.lean', 'Props/C15.lean'],
+ENTRY = {'lean_files': ['Tables/C19.lean', 'Props/C19.lean'],
  'lemma_files': ['Lemmas/Shift.lean',
                  'Lemmas/Bridge.lean',
                  'Lemmas/VS.lean',
